@@ -63,6 +63,7 @@ def family(dense=False):
     fam = {"orig": nf}
     fam["deep"] = nf.copy()
     fam["rows"] = nf.iloc[1:]
+    fam["all_rows"] = nf.iloc[0:len(nf)]          # a row slice that happens to select every row: still its own object
     fam["cols"] = nf[["x", "n"]]
     fam["ser"] = nf["n"]                 # a view by pandas' definition: shares the array with orig
     fam["ser_deep"] = nf["n"].copy()
@@ -71,6 +72,7 @@ def family(dense=False):
     fam["asc_arg"] = [False]                     # a caller-owned list of sort directions
     fam["key_arg"] = np.array([-1, 0])          # a caller-owned array of positions (negative ones included) used as an assignment key
     fam["np_arg"] = np.arange(float(nf["n"].nest.flat_length)) + 200.0      # a caller-owned numpy array offered as flat values
+    fam["cols_arg"] = ["b", "z"]                  # a caller-owned list of column names (the join column among them)
     fam["npser_arg"] = pd.Series(np.arange(float(nf["n"].nest.flat_length)) + 300.0)   # a caller-owned numpy-BACKED series offered as flat values
     fam["lists_arg"] = pd.DataFrame({"u": pd.Series(pa.array([[1], [2, 3], [], [4]], type=pa.list_(pa.int64())), dtype=pd.ArrowDtype(pa.list_(pa.int64())),
                                                      index=labels), "keep": [0, 1, 2, 3]}, index=labels)
@@ -95,6 +97,8 @@ def ops(tmpdir):
         "add_nested": ("pure", "orig", lambda f: f["orig"].add_nested(f["flat_arg"], "extra")),
         "reduce": ("pure", "orig", lambda f: f["orig"].reduce(lambda t: {"s": int(np.sum(t)), "o.t2": np.asarray(t) * 2}, "n.t")),
         "from_flat": ("pure", "flat_arg", lambda f: NestedFrame.from_flat(NestedFrame(f["flat_arg"].assign(b=1)), base_columns=["b"], name="m")),
+        "from_flat_on_colsarg": ("pure", "flat_arg", lambda f: NestedFrame.from_flat(NestedFrame(f["flat_arg"].assign(b=[1, 1, 2], c=[5.0, 6.0, 7.0])),
+                                                                                   base_columns=f["cols_arg"], nested_columns=["c"], on="b", name="m")),
         "from_lists": ("pure", "lists_arg", lambda f: NestedFrame.from_lists(f["lists_arg"], base_columns=["keep"], name="m")),
         "pack_flat": ("pure", "flat_arg", lambda f: pack_flat(f["flat_arg"], name="p")),
         "pack_flat_sorted_arg": ("pure", "flat_arg", lambda f: pack_flat(f["flat_arg"].sort_index(), name="p")),
@@ -122,6 +126,9 @@ def ops(tmpdir):
             [{"t": [8], "f": [8.5]}, None], dtype=f["ser_deep"].dtype).array)),
         "setfield_orig_arg": ("inplace", "orig", lambda f: f["orig"].__setitem__("n.f", f["np_arg"])),
         "nest_setitem_ser_deep_arg": ("inplace", "ser_deep", lambda f: f["ser_deep"].nest.__setitem__("f", f["np_arg"])),
+        "array_setitem_all_rows": ("inplace", "all_rows", lambda f: f["all_rows"]["n"].array.__setitem__(0, {"t": [4, 4], "f": [4.5, 4.5]})),
+        "nest_setitem_all_rows": ("inplace", "all_rows", lambda f: f["all_rows"]["n"].nest.__setitem__(
+            "f", np.arange(float(f["all_rows"]["n"].nest.flat_length)) + 80)),
         "array_set_flat_serarg": ("inplace", "ser_deep", lambda f: f["ser_deep"].array.set_flat_field("f", f["npser_arg"])),
         "setfield_new_nest": ("inplace", "orig", lambda f: f["orig"].__setitem__("m.z", f["series_arg"])),
         "loc_row_orig": ("inplace", "orig", lambda f: f["orig"].loc.__setitem__(("a", "n"), None)),
@@ -148,6 +155,7 @@ MAY_SHOW = {
     "iloc_ser_deep": {"ser_deep"}, "array_setitem_ser": {"ser", "orig", "cols", "rows"}, "nest_setitem_ser_deep": {"ser_deep"},
     "inplace_query_deep": {"deep"}, "inplace_sort_deep": {"deep"}, "inplace_dropna_rows": {"rows"}, "inplace_eval_deep": {"deep"},
     "base_assign_deep": {"deep"}, "setfield_cols": {"cols"}, "array_set_flat_serarg": {"ser_deep"},
+    "array_setitem_all_rows": {"all_rows"}, "nest_setitem_all_rows": {"all_rows"},
 }
 # element writes go through the shared array object only where pandas hands out the SAME array object: orig / ser share it; row slices and
 # column selections of a frame get their own array object (take / copy), so they must NOT show it
@@ -226,7 +234,7 @@ def run_sequence(seq, table, dense=False):
                 pass   # a no-op in this state (e.g. nothing to drop) is fine
     # whatever ran: the caller's later in-place writes into ITS OWN argument objects must not show in any frame / series
     # of the family (an operation that keeps the caller's memory instead of copying it)
-    args = ("flat_arg", "series_arg", "lists_arg", "np_arg", "npser_arg", "key_arg", "asc_arg")
+    args = ("flat_arg", "series_arg", "lists_arg", "np_arg", "npser_arg", "key_arg", "asc_arg", "cols_arg")
     before = {k: snap(v) for k, v in fam.items() if k not in args}
     try:
         fam["flat_arg"].iloc[0, 0] = 998.0
